@@ -10,8 +10,8 @@ const blocks of value specs (iota, iota+k, iota*m+k, k-iota, 1<<iota,
 1<<(iota-1), explicit literals incl. negative and the extremes of the kind,
 references to earlier constants of the block, multi-name specs, carried-down
 specs, `_` placeholders, untyped interloper specs that reset the carried type,
-specs of other types in the same block, harmless specs of a non-identifier
-type), several blocks and files, prefixed / unprefixed / near-miss names,
+specs of other types in the same block, specs of a non-identifier (qualified)
+type and specs carried down from them), several blocks and files, prefixed / unprefixed / near-miss names,
 exported and unexported types, and bit-flag enums (1..8 single bits, optional
 zero, optional composites of declared bits).
 
@@ -246,6 +246,7 @@ class EnumPkg:
                     continue
                 if s.vtype is not None:
                     if s.vtype[0] != "ident":
+                        typ = ""          # a qualified type resets the remembered type (K_enum_foreign_carry repaired)
                         continue
                     typ = s.vtype[1]
                 if typ != T:
@@ -581,15 +582,14 @@ class Builder:
             if rng.random() < 0.06:
                 specs.append(VSpec([self.names.neutral()], None, [("lit", rng.randint(0, 50))]))
                 feats.add("untyped-interloper")
-            if rng.random() < 0.04:
+            if rng.random() < 0.09:
                 ft = rng.choice(sorted(FOREIGN))
                 specs.append(VSpec([self.names.neutral()], ("foreign", ft), [("lit", rng.randint(1, 9))]))
-                feats.add("foreign-harmless")
-                # harmless only if no carried-down spec follows: force an explicit one next or end
-        # a foreign spec must not be followed by a carried-down spec
-        for i in range(len(specs) - 1):
-            if specs[i].vtype is not None and specs[i].vtype[0] == "foreign" and not specs[i + 1].vals:
-                specs[i + 1] = VSpec([self.names.neutral()], None, [("lit", 1)])
+                feats.add("foreign")
+                for _ in range(rng.choice([0, 1, 1, 2])):
+                    # constants carried down from the qualified-type spec: of that type, never of T
+                    specs.append(VSpec([self.names.neutral() if rng.random() < 0.8 else "_"], None, []))
+                    feats.add("foreign-carried")
         return specs, feats
 
     def blk_multi(self, T, rows):
@@ -775,10 +775,6 @@ def _gen_enum_pkg(rng, name, profile, max_hb, allow_gorm):
     for T, kind in spec.types:
         want_bit = (profile == "c14" and (rng.random() < 0.85 or not bit_types)) or \
                    (profile != "c14" and rng.random() < 0.12)
-        if T[0].lower() in "iv":
-            # open finding K_bit_receiver_shadow: -bit on a type named I.../V... (receiver i/v clashes with the
-            # template's i_ / v_): kept out of the -bit stream, its witnesses are replayed by c14.py
-            want_bit = False
         if want_bit:
             bit_types.add(T)
     b.bit_types = bit_types
